@@ -265,6 +265,75 @@ func mutexFacts(repo string, b *strings.Builder) {
 	fmt.Fprintf(b, "def fifoMutex_funcs : List String := %s\n\n", leanList(names))
 }
 
+// ---- lock/context.go: every statement of Lock/RLock/Unlock/RUnlock ----
+// (select shape, then the inner RWMutex operation, and what each return path does with the token)
+
+func ctxStmt(where string, st ast.Stmt) []string {
+	switch st := st.(type) {
+	case *ast.SelectStmt:
+		out := []string{"select"}
+		for _, c := range st.Body.List {
+			cc := c.(*ast.CommClause)
+			out = append(out, "case:"+commKind(where, cc.Comm))
+			for _, b := range cc.Body {
+				out = append(out, ctxStmt(where, b)...)
+			}
+		}
+		return append(out, "endselect")
+	case *ast.ReturnStmt:
+		src := render(st)
+		switch src {
+		case "return ctx.Err()":
+			return []string{"return:ctx.Err"}
+		case "return nil":
+			return []string{"return:nil"}
+		}
+		die("%s: unknown return %q", where, src)
+	case *ast.ExprStmt:
+		src := render(st.X)
+		switch src {
+		case "c.lock.Lock()":
+			return []string{"rw:Lock"}
+		case "c.lock.RLock()":
+			return []string{"rw:RLock"}
+		case "c.lock.Unlock()":
+			return []string{"rw:Unlock"}
+		case "c.lock.RUnlock()":
+			return []string{"rw:RUnlock"}
+		case "<-c.locked":
+			return []string{"recv:locked"}
+		}
+		die("%s: unknown statement %q", where, src)
+	}
+	die("%s: unknown statement %q", where, render(st))
+	return nil
+}
+
+func contextFacts(repo string, b *strings.Builder) {
+	rel := "concurrency/lock/context.go"
+	f := parse(repo, rel)
+	seen := map[string]bool{}
+	var names []string
+	for _, fd := range funcs(f) {
+		if fd.Recv == nil {
+			continue
+		}
+		names = append(names, fd.Name.Name)
+		seen[fd.Name.Name] = true
+		var evs []string
+		for _, st := range fd.Body.List {
+			evs = append(evs, ctxStmt(rel+":"+fd.Name.Name, st)...)
+		}
+		fmt.Fprintf(b, "def context_%s_body : List String := %s\n", fd.Name.Name, leanList(evs))
+	}
+	for _, w := range []string{"Lock", "RLock", "Unlock", "RUnlock"} {
+		if !seen[w] {
+			die("%s: method %s not found", rel, w)
+		}
+	}
+	fmt.Fprintf(b, "def context_methods : List String := %s\n\n", leanList(names))
+}
+
 func leanList(xs []string) string {
 	q := make([]string, len(xs))
 	for i, x := range xs {
@@ -326,6 +395,7 @@ func main() {
 		}
 		b.WriteString("\n")
 	}
+	contextFacts(*repo, &b)
 	emitSelects("context", "concurrency/lock/context.go")
 	emitSelects("outer", "concurrency/lock/outercancel.go")
 
